@@ -125,7 +125,10 @@ class Verifier(Stmts):
     def with_lets(self, con, st, extra):
         env = dict(extra)
         for name, text in con.lets:
-            env[name] = self.spec_value(text, st, env)
+            val = self.spec_value(text, st, env)
+            if isinstance(val, Ref) and st.heap[val.loc].kind in ('list', 'set', 'dict') and st.heap[val.loc].val is not None:
+                val = st.heap[val.loc].val      # a let names the VALUE the container had when the let was evaluated
+            env[name] = val
         return env
 
     # ------------------------------------------------------------------------------------------------ parameters
@@ -282,6 +285,20 @@ class Verifier(Stmts):
         qn = con.qualname
         vals = self.bind_params(node, args, kwargs, st, qn)
         caller = st.frame.qualname
+        # an Optional argument for a parameter declared non-Optional: only when it is known not to be None
+        for a_ in node.args.args:
+            val = vals.get(a_.arg)
+            if isinstance(val, V) and val.ty.kind == 'opt' and a_.annotation is not None:
+                try:
+                    pty = self.param_type(con, func, node, a_.arg)
+                except Outside:
+                    continue
+                if isinstance(pty, T) and pty.kind not in ('opt', 'any') and pty == val.ty.args[0]:
+                    o = opt_sort(to_sort(pty, self.reg))
+                    if st.spec or self.entails(st, o.is_some(val.t)):
+                        vals[a_.arg] = V(o.val(val.t), pty)
+                    else:
+                        raise Outside("possibly-None argument %s passed to %s" % (a_.arg, qn))
         # evaluate the contract in a frame that sees only the callee's parameters
         cst = st
         cst.stack.append(Frame(dict(vals), None, func.__globals__, qn + ':contract'))
